@@ -137,6 +137,13 @@ class PyList(Value):
         self.items = list(items)
 
 
+class VRepeat(Value):
+    """[x] * n with a symbolic n, not yet stored anywhere"""
+    def __init__(self, elem, n):
+        self.shape = None
+        self.elem, self.n = elem, n
+
+
 class VIter(Value):
     """iterator over a concrete sequence of values"""
     def __init__(self, items):
@@ -432,6 +439,21 @@ def coerce(path, v, shape):
         if isinstance(v, SOpt):
             return SOpt(shape, v.isnone, coerce(path, v.val, shape.inner))
         return SOpt(shape, z3.BoolVal(False), coerce(path, v, shape.inner))
+    if isinstance(v, VRepeat) and path is not None:
+        if shape is ValS:
+            from .absseq import repeat
+            return repeat(path, box(v.elem), v.n)
+        if isinstance(shape, RefS) and shape.cls in CONTAINERS and CONTAINERS[shape.cls][0] == 'list':
+            elem = CONTAINERS[shape.cls][1]
+            obj = SRef(shape, path.new_id())
+            items = container_fields(shape.cls)['items'].fresh('rep')
+            k = z3.Int(fresh_name('k'))
+            x = coerce(path, v.elem, elem)
+            path.assume(z3.ForAll([k], z3.Implies(z3.And(k >= 0, k < v.n), z3.And(
+                [a == b for a, b in zip(elem.unpack(items.shape.select(items, SV(IntS, k))), elem.unpack(x))]))))
+            path.write_field(obj, 'items', items)
+            path.write_field(obj, 'len', SV(IntS, z3.If(v.n > 0, v.n, 0)))
+            return obj
     if shape is ValS:
         return SV(ValS, box(v))
     if shape is RealS and isinstance(v, SV) and v.shape is IntS:
